@@ -135,7 +135,9 @@ _bsearch_s_chk(const void *key, const void *base, rsize_t nmemb, rsize_t size,
         }
         BND_CHK_PTR_BOUNDS(base, nmemb * size);
     } else {
-        rsize_t basesz = nmemb * size;
+        /* a product that does not fit is larger than any object */
+        rsize_t basesz = (size && nmemb > (rsize_t)-1 / size) ? (rsize_t)-1
+                                                             : nmemb * size;
         if (unlikely(basesz > basebos)) {
             invoke_safe_mem_constraint_handler(
                 "bsearch_s: nmemb*size exceeds sizeof base", (void *)base, ESNOSPC);
